@@ -43,7 +43,7 @@ func main() {
 		"parser's naming rule and the check is the relational oracle (den_top) on the printed rows; " +
 		"non-trivial = at least one output row; distinct by full case text."
 	n := f.Cases(300, 3000)
-	cases, err := relq.Generate(rng, n, relq.Profile{GroupBias: 9, MaxDepth: 1, AllowErrors: true, AliasShapes: true, AllowTriple: true, TriggerBias: 2, SimpleEvery: 3}, bin, home, work)
+	cases, err := relq.Generate(rng, n, relq.Profile{GroupBias: 9, MaxDepth: 1, AllowErrors: true, AliasShapes: true, AllowTriple: true, TriggerBias: 2, SimpleEvery: 3, Floats: true}, bin, home, work)
 	if err != nil {
 		fmt.Fprintln(os.Stderr, err)
 		os.Exit(2)
@@ -85,11 +85,7 @@ func main() {
 	for k, j := range jobs {
 		cf.Count("crosscheck_" + j.mode)
 		if diffs[k] != "" {
-			class := ""
-			if cases[j.i].G.TripleName {
-				class = "c03-triple-name"
-			}
-			cf.Violation(j.i, diffs[k], class)
+			cf.Violation(j.i, diffs[k], "")
 		}
 	}
 	os.RemoveAll(filepath.Join(work, "home"))
